@@ -40,6 +40,8 @@ def run(chk):
     chk.extra["sweep_body_paths"] = paths
     e7.tdvp_composition(chk, prog.func(TDVP, "tdvp_"))
     e7.krylov_memo_keys(chk, prog)
+    from . import e10
+    e10.run_U(chk, ("yastn.tn.mps._tdvp", "yastn.tn.mps._env", "yastn.krylov", "yastn.tensor._krylov"), rule1="U1", rule2="U2", floor1=40, floor2=10)
     chk.rule("T6", "all effective Hamiltonians Heff0/Heff1/Heff2 carry the operator's norm factor (forward and backward steps use one generator)", floor=12)
     from . import e8
     e8.check_heff_factor(chk, "T6")
